@@ -2,6 +2,8 @@ import RainModel.Model.InfoDownloader
 import RainModel.Lemmas.InfoDownloader
 import RainModel.Model.Adopt
 import RainModel.Lemmas.Adopt
+import RainModel.Model.Magnet
+import RainModel.Lemmas.Magnet
 /-!
 C13 — magnet metadata is adopted only if it hashes to the link's info-hash.
 Property theorems only; helper lemmas live in `Lemmas/`.
@@ -202,5 +204,65 @@ example :
     (Adopt.run demoEnv State.init es).dls = [] := by decide
 
 end Adopt
+
+/-! ## Magnet links (`internal/magnet`) -/
+section MagnetLinks
+open Rain.Magnet
+
+/-- **magnet_roundtrip.** For every magnet value `m` (20-byte info-hash; any name, any tiers, any
+peer strings — at the level of decoded query parameters) and **every** iteration order of the
+`url.Values` map (`order`: the distinct keys of the rendered link, each once): parsing the
+rendered link succeeds and yields the same info-hash, name and peers, and a tier list that is a
+permutation of the non-empty tiers of `m`, each tier unchanged (same members, same order).
+Empty tiers are not representable in a link; `Session.parseTrackers` never produces one, so for
+an exported link the tiers are the same multiset. -/
+theorem magnet_roundtrip (m : Magnet) (hih : m.ih.length = 20) (hb : ∀ b ∈ m.ih, b < 256)
+    (hlen : m.trackers.length ≤ 2 ^ 63) (order : List Str) (hnd : order.Nodup)
+    (hmem : ∀ k, k ∈ order ↔ k ∈ (render m).map (·.1)) :
+    ∃ m', parse [109, 97, 103, 110, 101, 116] order (render m) = .ok m' ∧
+      m'.ih = m.ih ∧ m'.name = m.name ∧ m'.peers = m.peers ∧
+      m'.trackers.Perm (m.trackers.filter (· ≠ [])) := by
+  have hx : parseInfoHash (valuesOf kXt (render m)) false = .ok m.ih := by
+    rw [values_xt]
+    simp only [parseInfoHash, cutPrefix_append, infoHashString, hexEncode_length, hih,
+      hexDecode_encode m.ih hb, ↓reduceIte, toIH]
+    congr 1
+    rw [List.take_append_of_le_length (by omega), List.take_of_length_le (by omega)]
+  refine ⟨{ ih := m.ih, name := (valuesOf kDn (render m)).headD [],
+            trackers := (sortTiers (rawTiers order (render m))).map (·.trackers),
+            peers := valuesOf kPe (render m) }, ?_, rfl, ?_, ?_, ?_⟩
+  · unfold parse
+    simp only [ne_eq, not_true_eq_false, ↓reduceIte, hx]
+    rw [values_xt]
+    rfl
+  · show (valuesOf kDn (render m)).headD [] = m.name
+    rw [values_dn]
+    split
+    · rfl
+    · rename_i h; simp only [ne_eq, Decidable.not_not] at h; simp [h]
+  · exact values_pe m
+  · exact rawTiers_order_perm m hlen order hnd hmem
+
+/-- The same statement for the driver's decidable oracle `roundtripOk`. -/
+theorem magnet_roundtrip_oracle (m : Magnet) (hih : m.ih.length = 20) (hb : ∀ b ∈ m.ih, b < 256)
+    (hlen : m.trackers.length ≤ 2 ^ 63) (order : List Str) (hnd : order.Nodup)
+    (hmem : ∀ k, k ∈ order ↔ k ∈ (render m).map (·.1)) :
+    ∃ m', parse [109, 97, 103, 110, 101, 116] order (render m) = .ok m' ∧ roundtripOk m m' = true := by
+  obtain ⟨m', hp, h1, h2, h3, h4⟩ := magnet_roundtrip m hih hb hlen order hnd hmem
+  refine ⟨m', hp, ?_⟩
+  simp only [roundtripOk, h1, h2, h3, sameTiers, decide_true, Bool.and_self, Bool.true_and]
+  exact List.isPerm_iff.2 h4
+
+/-- Non-vacuity: a link with a name needing escaping, a multi-tracker tier before a single one
+(so the order of tiers changes), an empty tier and two peers; `distinctKeys` is one admissible
+order. -/
+example :
+    let m : Magnet := { ih := List.replicate 20 171, name := [97, 32, 38, 98],
+                        trackers := [[[1], [2]], [[3]], [], [[4], [5], [6]]], peers := [[49], [50]] }
+    (distinctKeys (render m)).Nodup ∧ (∀ k ∈ (render m).map (·.1), k ∈ distinctKeys (render m)) ∧
+    (parse [109, 97, 103, 110, 101, 116] (distinctKeys (render m)) (render m)).toOption.map (·.trackers) =
+      some [[[3]], [[1], [2]], [[4], [5], [6]]] := by decide
+
+end MagnetLinks
 
 end Rain.Props.C13
